@@ -207,6 +207,15 @@ func (c *affCtx) parse(v ssa.Value, depth int) *affine {
 				return a.scale(k)
 			}
 			return nil
+		case token.SHL:
+			a, b := c.parse(x.X, depth+1), c.parse(x.Y, depth+1)
+			if a == nil || b == nil {
+				return nil
+			}
+			if k, ok := b.isConst(); ok && k >= 0 && k < 32 {
+				return a.scale(int64(1) << uint(k))
+			}
+			return nil
 		case token.AND:
 			// x & (M-1): a modulo only when M is a power of two
 			for _, pair := range [][2]ssa.Value{{x.X, x.Y}, {x.Y, x.X}} {
@@ -463,6 +472,29 @@ func checkRingRotation(w *World, r *Report, rule string) {
 				}
 			}
 			verdict(key, what, site, decided, bad)
+			// the new buffer is larger than the old one, whatever the old size (>= 1) is: k*M + c with k >= 2, c >= 0 or
+			// k == 1, c >= 1. Anything else (M + M/2 stays 1 for M = 1) is not accepted: a "grown" buffer of the same
+			// size leaves tail == head == out of range, and the Push panics with the lock held.
+			if ms, isMS := stripConv(newItems).(*ssa.MakeSlice); isMS {
+				sz := cx.parse(ms.Len, 0)
+				larger := false
+				detail := "the size of the new buffer, " + w.pathOf(ms.Len) + ", is not of the form k*size + c"
+				if sz != nil && !sz.modM {
+					k, onlyM := sz.coef["M"], true
+					for sym, cf := range sz.coef {
+						if sym != "M" && cf != 0 {
+							onlyM = false
+						}
+					}
+					if onlyM && ((k >= 2 && sz.c >= 0) || (k == 1 && sz.c >= 1)) {
+						larger = true
+					} else {
+						detail = fmt.Sprintf("the size of the new buffer is %s: not larger than the old size for every size >= 1", sz)
+					}
+				}
+				r.Check(larger, rule, "RingBuffer.Push:grow-enlarges", "the buffer allocated when the ring is full is strictly larger than the old one for every capacity >= 1", site,
+					detail+": a ring of that capacity does not grow, the new tail index is out of range and Push panics with the lock held")
+			}
 		}
 	}
 	// ---- PopN
